@@ -112,12 +112,22 @@ fn scenarios<TC: ModelCfg>(quick: bool, three: bool) -> Vec<ScCase> {
                     lag_publishes: vec![],
                     poller: false,
                     gate_vrf: true,
+                    post_gates: false,
                     faults: 0,
                     faultable: no_fault,
                 },
             });
         }
     }
+    // response-delivery gates (I/O completion order) on two representative scenarios
+    let mut extra = vec![];
+    for c in out.iter().filter(|c| matches!(c.name, "disjoint_inserts" | "same_label_updates") && c.sc.actors.len() == 2) {
+        let mut sc = c.sc.clone();
+        sc.post_gates = true;
+        sc.gate_vrf = false;
+        extra.push(ScCase { name: if c.name == "disjoint_inserts" { "disjoint_inserts_response_gates" } else { "same_label_updates_response_gates" }, sc });
+    }
+    out.extend(extra);
     out
 }
 
